@@ -18,6 +18,13 @@ TIME_FMTS = CSV_FMTS + ["2D/2M/2Y 2h:2m:2s", "2D/2M/4Y", "2h:2m:2s", "4Y-2M-2DT2
                         "1D/1M/4Y 1h:1m:1s", "2D/2M/4Y 2h:2m:2s.1z", "4Y_2M", "[4Y] (2M) {2D}", "2s2m2h2D2M4Y"]
 SRIDS = ["ENU", "GEO", "ECEF"]
 NODATA = -999999
+# sizes of the long tracks / networks: just below, at and above the powers of two 128 .. 4096 (block sizes of buffered
+# writers and readers), and three round numbers
+SIZES = [2 ** k + d for k in range(7, 13) for d in (-1, 0, 1)] + [1000, 3000, 5000]
+
+
+def size_bucket(n):
+    return "1-6" if n <= 6 else "7-126" if n < 127 else "127-1000" if n <= 1000 else "1001-2048" if n <= 2048 else "2049-5000"
 
 
 def hx(s):
@@ -154,6 +161,13 @@ def af_model(tok):
     return dec_float(tok)
 
 
+def af_safe(v, sep):
+    """v, or a plain word when the text of v is not one field of a line (see csv_domain): in a track of thousands of
+    observations one such value would take the whole case out of the oracle's domain"""
+    t = str(af_py(v))
+    return ["S", "run"] if (t != t.strip() or t == "" or sep in t or "\n" in t or t.startswith("#")) else v
+
+
 AF_NAMES = ["af0", "af1", "speed", "k&", "abs_curv", "hdop", "A", "n&", "time", "E", "ele", "&"]
 AF_STRS = ["abc", "x1", "N/A", "run", "\"q\"", "a b", "walk/bike", "é", "1;2", "", " pad ", "#c", "12a", "nan", "-Inf", "True"]
 
@@ -252,6 +266,8 @@ class P(Prop):
         (M, "TV.C13.row_roundtrip", "a data line written by writeToFile (any valid layout, any feature columns of int / float / str / nan values whose text is one field, separator not a number character, lossless time format avoiding the separator) is read back by __readFromCsv as the same observation"),
         (M, "TV.C13.csv_file_roundtrip", "whole file: writeToFile(h) - data lines, preceded for h>0 by the three comment lines #srid/#ref point/#column names - then readFromCsv(h=hr) returns the same observations in the same order for every hr up to the number of header lines written (0 for h=0, else 3)"),
         (M, "TV.C13.csv_file_roundtrip_matching", "the matching call: written with the flag h in {0,1} and read with h=h, every observation comes back"),
+        (M, "TV.C13.csv_file_lines", "any length, text level: the file writeToFile writes for a track of ANY number of observations is the header block (0 or 3 comment lines) followed by exactly one physical line per observation, in order, every line - the last one and the one at any block boundary included - terminated by its own end of line; readline() delivers header + n lines"),
+        (M, "TV.C13.csv_file_same_number_same_order", "the statement in its own words, for ANY number of observations: the track read back has as many observations as the track written and its i-th observation is the i-th one written, for every reader header count up to the number of header lines written"),
         (M, "TV.C13.csv_header_block_roundtrip", "reader side of the header option: `header` first lines of any content, comment lines, then the data lines are read as exactly the observations"),
         (M, "TV.C13.writeToCsv_roundtrip", "the front end TrackWriter.writeToCsv(track, path, TrackFormat) writes what writeToFile writes with the format's ids, separator and header: the file is read back as the same observations"),
         (M, "TV.C13.writeToCsv_collection_roundtrip", "writeToCsv(collection, dir, TrackFormat) = writeToFiles: one file per track, each read back as its track"),
@@ -276,6 +292,9 @@ class P(Prop):
         (M, "TV.C13.gpx_collection_roundtrip", "writeToGpx(collection, file) - oneFile=True, the default - writes one <trk> per track; the file is read back as the same number of tracks in the same order, each with its points in order"),
         (M, "TV.C13.gpx_af_file_roundtrip", "the same for writeToGpx(af=True): the reader skips the <extensions> block of every point (one <name>value</name> line per feature, none of which closes the block itself), the points come back unchanged whatever the features are called"),
         (M, "TV.C13.gpx_af_names_ok", "every feature name without < > newline, not starting with / and other than 'extensions', with a value text without < and newline, is fine for gpx_af_file_roundtrip - time, ele, trk, trkpt included"),
+        (M, "TV.C13.gpx_same_number_same_order", "GPX, any length: a track of ANY number of points is read back as one track with the same number of points, the i-th point read being the i-th point written"),
+        (M, "TV.C13.net_same_number_same_order", "network, any size: ANY number of edges with ANY number of vertices each, header written / not and read with the matching count: the same number of edges, the i-th edge read being the i-th edge written (ids, end nodes, orientation, every vertex)"),
+        (M, "TV.C13.wkt_same_number_same_order", "WKT, any length: a track of any non-zero number of vertices exported by toWKT is parsed back as the same number of vertices, the i-th parsed being the i-th exported"),
         (M, "TV.C13.reread_roundtrip", "a timestamp text read under ANY lossless read format f2 gives the stamp whose text under f2 it is - whatever format it was printed with and whatever was read before (the oracle clause of the reread / twin-format sessions)"),
         (M, "TV.C13.gpx_read_formats", "'4Y-2M-2DT2h:2m:2s' with or without Z reads the stamps the GPX writer prints, calendar part unchanged"),
         (M, "TV.C13.written_precision_partial", "the written precision is that of the text: the fixed-point text of CSV / GPX and the str(float) text of WKT (any magnitude, e or E) are read back by float() as exactly the decimal printed (format()'s rounding of arbitrary doubles and repr's choice of the shortest digits not covered)"),
@@ -330,7 +349,12 @@ class P(Prop):
             "POLYGON / LINESTRING / MULTIPOLYGON texts, a fifth of their ordinates in exponent form, well formed or not; sessions of 2-6 operations (CSV, GPX to one file, GPX to one file per track in a directory, network, WKT, "
             "timeWithZone, KML, readTimestamp / ObsTime(str)) sharing the global ObsTime formats - set once at the start, or changed by the user between operations "
             "(setfmt), between the write and the read of one file (mid_print), with twin formats (same literals and widths, two-character codes permuted) whose files hold "
-            "the very same timestamp texts, files read by 2-3 readers; reread: one text under a sequence of read formats. Every multi-operation case runs in a child "
+            "the very same timestamp texts, files read by 2-3 readers; reread: one text under a sequence of read formats; LONG inputs (given by a rule, see X): tracks of 127 .. 5000 observations - every size "
+            "2^k-1, 2^k, 2^k+1 for 128 <= 2^k <= 4096, and 1000, 3000, 5000 - through writeToFile / writeToCsv / the default call, with and without feature columns and "
+            "read_all; GPX tracks of 129 .. 4097 points (a third with extensions), GPX collections of 33 / 129 tracks and of two tracks of 2049 points; chain networks "
+            "of 129 .. 4097 edges and edges of 129 .. 2049 vertices; WKT texts of 129 .. 5000 vertices; files of 129 / 1025 WKT lines; collections of 10 - 34 tracks "
+            "written one file per track (two-digit file indices); lines of 10 - 20 feature columns; feature values, track names and edge / node identifiers of 300 and 5000 characters (thorough: every size in every stream, collections of up to 130 "
+            "tracks). Every multi-operation case runs in a child "
             "forked from a process that never executed library code, single-operation cases in one long-lived child (a failure there is re-run in a fresh child): a "
             "reported failing input fails again alone. non-trivial = at least one non-zero coordinate or a timestamp other than the epoch")
 
@@ -544,6 +568,208 @@ class P(Prop):
         if rng.random() < 0.1:
             c["stale"] = True
         return c
+
+    # ---- long inputs: thousands of observations / vertices / edges / tracks, given by a rule instead of a listing
+    _xcache = {}
+
+    def X(self, case):
+        """A long case carries, instead of its observations, the rule that generates them: `long` = {"seed": s, "n": number
+        of observations | "edges": number of edges of a chain network | "verts": number of vertices of one edge | "tracks" /
+        "each": number of tracks and observations per track | "more": number of further tracks of a collection}. X(case)
+        is the same case written out (rows / pts / edges / tracks listed, no `long` key); the values come from the generators
+        of the short cases, drawn from random.Random(seed) one observation after the other, so that a smaller `n` gives a
+        prefix of the same track. Cases without `long` are returned as they are. Replay files and the evidence stay small,
+        and the failing input is still fully determined by the case."""
+        g = case.get("long")
+        if not g:
+            return case
+        import json, random
+        key = json.dumps(case, sort_keys=True, default=str)
+        hit = P._xcache.get(key)
+        if hit is not None:
+            return hit
+        rng = random.Random(g["seed"])
+        c = {k: v for k, v in case.items() if k != "long"}
+        k = case["kind"]
+        if k in ("csv", "gpx"):
+            c["rows"] = self.rand_rows(rng, case["srid"], n=g["n"], q=case["q"])[0]
+            if k == "gpx" and case["srid"] != "GEO":
+                for r in c["rows"]:
+                    r[2] = 0 if case["q"] is not None else 0.0
+            if "af_names" in case:
+                c["afs"] = [[af_safe(self.rand_af(rng, bool(g.get("rich"))), case.get("sep", "\n")) for _ in case["af_names"]] for _ in c["rows"]]
+            if g.get("more"):
+                c["more"] = [self.rand_rows(rng, case["srid"], n=g.get("each", 1), q=case["q"])[0] for _ in range(g["more"])]
+        elif k == "gpxcoll":
+            c["tracks"] = []
+            for i in range(g["tracks"]):
+                rows = self.rand_rows(rng, case["srid"], n=g["each"], q=case["q"])[0]
+                if case["srid"] != "GEO":
+                    for r in rows:
+                        r[2] = 0 if case["q"] is not None else 0.0
+                c["tracks"].append({"tid": "t%d" % i if i % 3 else i, "rows": rows})
+        elif k == "wkt":
+            if case["q"] is None:
+                c["pts"] = [[self.rand_wide(rng, case["srid"], 0), self.rand_wide(rng, case["srid"], 1)] for _ in range(g["n"])]
+            else:
+                c["pts"] = [[self.rand_coord(rng, case["srid"], 0, case["q"]), self.rand_coord(rng, case["srid"], 1, case["q"])] for _ in range(g["n"])]
+        elif k == "wktfile":
+            c["tracks"] = []
+            for i in range(g["tracks"]):
+                pts = [[cval(self.rand_coord(rng, "ENU", 0, 3), 3), cval(self.rand_coord(rng, "ENU", 1, 3), 3)] if rng.random() < 0.8
+                       else [self.rand_wide(rng, "ENU", 0), self.rand_wide(rng, "ENU", 1)] for _ in range(g["each"])]
+                c["tracks"].append({"uid": "u%d" % (i % 7), "tid": "t%d" % i, "pts": pts})
+        elif k == "net":
+            # a chain n0 - n1 - ... of `edges` edges (three vertices each, topologically exact, the three orientations in turn),
+            # or two edges between a and b, the first with `verts` vertices; vertices on the 1 mm / 1e-8 degree lattice
+            geo = case["srid"] == "GEO"
+            dx, M, x0 = (6000000, 160 * 10 ** 8, -170 * 10 ** 8) if geo else (12345, 10 ** 7, -3 * 10 ** 7)
+            s = g["seed"]
+
+            def P_(i):
+                return [x0 + i * dx + (i * 7919 + s) % 613, (i * i * 31 + s * 7) % M - M // 2]
+            if g.get("verts"):
+                m = g["verts"]
+                c["edges"] = [{"id": "e0", "src": "a", "tgt": "b", "orient": [0, 1, -1][s % 3], "geom": [P_(j) for j in range(m)]},
+                              {"id": "e1", "src": "b", "tgt": "a", "orient": [1, -1, 0][s % 3], "geom": [P_(m - 1), P_(0)]}]
+            else:
+                c["edges"] = []
+                for i in range(g["edges"]):
+                    a, b = P_(i), P_(i + 1)
+                    c["edges"].append({"id": "e%d" % i, "src": "n%d" % i, "tgt": "n%d" % (i + 1), "orient": [0, 1, -1][(i * i + s) % 3],
+                                       "geom": [a, [(a[0] + b[0]) // 2, a[1] + 500], b]})
+        else:
+            raise ValueError("no long form for kind %r" % k)
+        if len(P._xcache) > 6:
+            P._xcache.clear()
+        P._xcache[key] = c
+        return c
+
+    @staticmethod
+    def case_size(c):
+        """number of observations / vertices / edges / tracks of a written-out case (the largest of them)"""
+        k = c["kind"]
+        if k in ("csv", "gpx"):
+            return max(len(c["rows"]), 1 + len(c.get("more", [])))
+        if k in ("gpxcoll", "gpxdir"):
+            return max([len(c["tracks"])] + [len(t["rows"]) for t in c["tracks"]])
+        if k == "wkt":
+            return len(c["pts"])
+        if k == "wktfile":
+            return max([len(c["tracks"])] + [len(t["pts"]) for t in c["tracks"]])
+        if k == "net":
+            return max([len(c["edges"])] + [len(e["geom"]) for e in c["edges"]])
+        return 1
+
+    def long_cases(self, rng, tier):
+        """the size classes the short streams never reach: tracks of 127 .. 5000 observations through every CSV entry point,
+        GPX (one track, collections of many tracks, with and without extensions), networks of up to 5000 edges and edges of
+        up to 4097 vertices, WKT texts of up to 5000 vertices, files of up to 1025 WKT lines, collections of 10 - 129 tracks
+        (file names track_output_<i>.csv with two and three digit indices), lines of up to 20 feature columns"""
+        thorough = tier == "thorough"
+        L = self.layouts()
+        LT = [l for l in L if l["T"] != -1]
+        out = []
+
+        def sd():
+            return rng.randrange(1 << 30)
+        # --- CSV: every size, through writeToFile / writeToCsv / the default call, with and without feature columns
+        for n in SIZES * (1 if not thorough else 5):
+            ids = rng.choice(LT * 3 + L)
+            sep = rng.choice([",", ";", ";", "|", "\t"])
+            pf = rng.choice(CSV_FMTS)
+            c = self.csv_case(rng, ids, sep, rng.choice([0, 0, 1]), rng.choice(SRIDS), q=rng.choice(["lat", "lat", None]), pfmt=pf, n=1)
+            del c["rows"]
+            c["long"] = {"n": n, "seed": sd()}
+            r = rng.random()
+            if r < 0.2:
+                c["front"] = "writeToCsv"
+            elif r < 0.3:
+                c.update(front="defaults", ids={"E": 0, "N": 1, "U": -1, "T": -1}, sep=",", h=0, hdrR=0)
+            elif r < 0.55:
+                c["af_names"] = rng.sample(AF_NAMES[:8], rng.choice([1, 2, 3]))
+                c["long"]["rich"] = rng.random() < 0.5
+                if rng.random() < 0.6:
+                    c.update(h=1, hdrR=1, read_all=True)
+            out.append(c)
+        # --- wide lines: 10 - 20 feature columns (two-digit column indices)
+        for naf in (10, 12, 17, 20) * (1 if not thorough else 5):
+            c = self.csv_case(rng, rng.choice(L), rng.choice([",", ";", "|", "\t"]), 1, rng.choice(SRIDS), pfmt=rng.choice([DEFAULT_FMT, ISO_FMT]),
+                              n=rng.choice([1, 2, 3]), read_all=rng.random() < 0.7)
+            c["af_names"] = ["c%d" % i for i in range(naf)]
+            c["afs"] = [[af_safe(self.rand_af(rng, True), c["sep"]) for _ in range(naf)] for _ in c["rows"]]
+            out.append(c)
+        # --- long fields: a feature value / a track name / an edge or node identifier of hundreds to thousands of characters
+        for m in (300, 5000) if not thorough else (255, 256, 257, 1023, 1024, 1025, 4095, 4096, 4097, 8193, 20000):
+            c = self.csv_case(rng, rng.choice(L), rng.choice([",", ";", "|", "\t"]), 1, rng.choice(SRIDS), pfmt=rng.choice([DEFAULT_FMT, ISO_FMT]),
+                              n=2, read_all=rng.random() < 0.7)
+            c["af_names"] = ["note", "k&"]
+            c["afs"] = [[["S", ("walk_" * (m // 5 + 1))[:m]], 7], [["S", "x"], ["S", "y" * m]]]
+            out.append(c)
+            rows, q = self.rand_rows(rng, "GEO", n=2, q=8)
+            out.append({"kind": "gpx", "srid": "GEO", "q": q, "rows": rows, "rfmt": ISO_FMT, "tid": ("trace-" * (m // 6 + 1))[:m]})
+            c = self.net_case(rng, sep=rng.choice([",", ";"]), loose=False)
+            ren = {}
+            m = min(m, 4097)        # (the model's csv state machine is quadratic in the length of a cell)
+            for e in c["edges"]:
+                for key in ("src", "tgt"):
+                    e[key] = ren.setdefault(e[key], (e[key] + "_") * (m // (len(e[key]) + 1)) + "n")
+            c["edges"][0]["id"] = ("E%d-" % m) * (m // 6 + 1)
+            out.append(c)
+        # --- collections of many tracks: one file per track, track_output_0.csv .. track_output_<k>.csv
+        for k in (9, 10, 11, 33) if not thorough else (9, 10, 11, 33, 99, 100, 101, 129):
+            c = self.csv_case(rng, rng.choice(L), rng.choice([",", ";", "|"]), rng.choice([0, 1]), rng.choice(SRIDS), pfmt=rng.choice(CSV_FMTS), n=1)
+            del c["rows"]
+            c.pop("stale", None)
+            c["front"] = "writeToCsv"
+            c["long"] = {"n": 2, "more": k, "each": rng.choice([1, 2]), "seed": sd()}
+            out.append(c)
+        # --- GPX
+        for n in ([129, 1025, 2047, 2048, 2049, 4097] if not thorough else SIZES * 2):
+            srid = rng.choice(["GEO", "GEO", "GEO", "ENU"])
+            c = {"kind": "gpx", "srid": srid, "q": (rng.choice([8, 8, None]) if srid == "GEO" else rng.choice([3, None])),
+                 "rfmt": rng.choice([ISO_FMT, ISO_FMT + "Z"]), "tid": rng.choice([0, "trace"]), "long": {"n": n, "seed": sd()}}
+            if rng.random() < 0.3:
+                c["af_names"] = rng.sample(AF_NAMES[:8] + ["time", "ele"], rng.choice([1, 2]))
+                c["long"]["rich"] = True
+            out.append(c)
+        for nt, each in ([(33, 2), (129, 1), (2, 2049)] if not thorough else [(33, 2), (129, 1), (2, 2049), (1025, 1), (3, 4097), (257, 3)]):
+            srid = rng.choice(["GEO", "GEO", "ENU"])
+            out.append({"kind": "gpxcoll", "srid": srid, "q": 8 if srid == "GEO" else 3, "rfmt": rng.choice([ISO_FMT, ISO_FMT + "Z"]),
+                        "long": {"tracks": nt, "each": each, "seed": sd()}})
+        # --- networks: many edges, one edge of many vertices
+        for key, n in ([("edges", 129), ("edges", 1025), ("edges", 2049), ("edges", 4097), ("verts", 129), ("verts", 1025), ("verts", 2049)] if not thorough
+                       else [("edges", m) for m in SIZES] + [("verts", m) for m in SIZES if m <= 4097]):
+            srid = rng.choice(["ENU", "GEO"])
+            h = rng.choice([0, 1])
+            out.append({"kind": "net", "srid": srid, "q": 8 if srid == "GEO" else 3, "sep": rng.choice([",", ";", "\t", "|"]), "h": h, "hdrR": h, "posdir": 3,
+                        "long": {key: n, "seed": sd()}})
+        # --- WKT texts of many vertices; files of many WKT lines
+        for n, wide in ([(129, 0), (1025, 0), (2049, 0), (4097, 0), (5000, 0), (1025, 1), (2049, 1)] if not thorough
+                        else [(m, 0) for m in SIZES] + [(m, 1) for m in SIZES if m <= 2049]):
+            srid = rng.choice(SRIDS)
+            out.append({"kind": "wkt", "srid": srid, "q": None if wide else (8 if srid == "GEO" else 3), "long": {"n": n, "seed": sd()}})
+        for nt, each in ([(129, 2), (1025, 1), (2, 1025)] if not thorough else [(129, 2), (1025, 1), (2, 2049), (2049, 1), (3, 1025)]):
+            c = self.wktfile_case(rng)
+            del c["tracks"]
+            c["hdrR"] = c["hdr"]
+            c["long"] = {"tracks": nt, "each": each, "seed": sd()}
+            out.append(c)
+        return out
+
+    @staticmethod
+    def spread(out, extra):
+        """the long cases take a thousand times longer than the others: spread evenly over the list (the engine shards the
+        list in runs of consecutive cases)"""
+        if not extra:
+            return out
+        step = len(out) / float(len(extra))
+        res, j = [], 0
+        for i, c in enumerate(out):
+            while j < len(extra) and (j + 0.5) * step <= i:
+                res.append(extra[j]); j += 1
+            res.append(c)
+        return res + extra[j:]
 
     # ---- sessions: several operations sharing the global ObsTime formats
     def session_op(self, rng, kind, fmt):
@@ -840,7 +1066,8 @@ class P(Prop):
         # WKT texts as other tools write them, parsed by TrackReader.parseWkt (reader only): polygons, z values, blanks, case
         for _ in range(400 if not thorough else 4000):
             out.append(self.wktp_case(rng))
-        return out
+        # --- long tracks, networks, collections, lines (written as a rule: see X)
+        return self.spread(out, self.long_cases(rng, tier))
 
     def gpxcoll_case(self, rng):
         srid = rng.choice(["GEO", "GEO", "GEO", "ENU"])
@@ -919,6 +1146,11 @@ class P(Prop):
     def describe(self, case):
         t = {"kind": case["kind"]}
         k = case["kind"]
+        if k in ("csv", "gpx", "gpxcoll", "net", "wkt", "wktfile"):
+            case = self.X(case)
+            t["size"] = size_bucket(self.case_size(case))
+        if k == "csv":
+            t["feature_columns"] = min(len(case.get("af_names", [])), 10)
         if k == "csv":
             t["sep"] = case["sep"]; t["srid"] = case["srid"]; t["h"] = case["h"]
             t["layout"] = "E%(E)dN%(N)dU%(U)dT%(T)d" % case["ids"]
@@ -957,6 +1189,7 @@ class P(Prop):
         return True
 
     def nontrivial(self, case):
+        case = self.X(case)
         k = case["kind"]
         if k == "csv" or k == "gpx":
             return any(any(r[:3]) or r[3:] != [1970, 1, 1, 0, 0, 0, 0] for r in case["rows"])
@@ -1038,12 +1271,24 @@ class P(Prop):
             bad = True
         return self.fork_call(case) if bad else out
 
+    @staticmethod
+    def in_lib_call(e):
+        """the exception e was raised inside one of the library's write / read calls (they all go through self.lib), as
+        opposed to the harness's own plumbing: building the track / network of the case with the library's constructors,
+        expanding a long case, reading its own scratch files"""
+        tb = e.__traceback__
+        while tb is not None:
+            if tb.tb_frame.f_code is P.lib.__code__:
+                return True
+            tb = tb.tb_next
+        return False
+
     def guarded(self, case):
         try:
             return self.impl_here(case)
         except BaseException as e:
             from engine import err_kind
-            return {"err": err_kind(e), "detail": str(e)[:200]}
+            return {"err": err_kind(e), "detail": str(e)[:200], "in_lib": self.in_lib_call(e)}
 
     def fork_call(self, case):
         import pickle
@@ -1064,7 +1309,7 @@ class P(Prop):
             data = fh.read()
         os.waitpid(pid, 0)
         if not data:
-            return {"err": "err:child", "detail": "the child process running the case died"}
+            return {"err": "err:child", "detail": "the child process running the case died", "in_lib": True}
         return pickle.loads(data)
 
     def runner_call(self, case):
@@ -1109,7 +1354,7 @@ class P(Prop):
         T = self.ObsTime
         save = (T.getReadFormat(), T.getPrintFormat())
         try:
-            return getattr(self, "impl_" + case["kind"])(case)
+            return getattr(self, "impl_" + case["kind"])(self.X(case))
         finally:
             self.ambient, self.leaks = False, None
             T.setReadFormat(save[0]); T.setPrintFormat(save[1])
@@ -1128,7 +1373,7 @@ class P(Prop):
             except BaseException as e:
                 if isinstance(e, KeyboardInterrupt):
                     raise
-                o = {"err": self.ekind(e), "detail": str(e)[:200]}
+                o = {"err": self.ekind(e), "detail": str(e)[:200], "in_lib": self.in_lib_call(e)}
             o["leaks"] = self.leaks
             o["fmt_after"] = [T.getReadFormat(), T.getPrintFormat()]
             outs.append(o)
@@ -1342,8 +1587,15 @@ class P(Prop):
             if not self.ambient:
                 T.setReadFormat(case["rfmt"])
             files = []
-            for i in range(len(all_rows)):
-                path = os.path.join(d, "track_output_%d.csv" % i)
+            fnames = ["track_output_%d.csv" % i for i in range(len(all_rows))]
+            listing = sorted(os.listdir(d))
+            names_differ = sorted(fnames) != listing and len(listing) == len(fnames)
+            if names_differ:
+                # one file per track, under other names than track_output_<i>.csv: the property does not name the files; they are
+                # read in the order of their names and matched with the tracks as a multiset (the correspondence check reports it)
+                fnames = listing
+            for fname in fnames:
+                path = os.path.join(d, fname)
                 try:
                     with open(path, newline="") as fh:
                         text = fh.read()
@@ -1360,7 +1612,10 @@ class P(Prop):
                 dirread = [self.obs_rows(cb[i]) for i in range(cb.size())]
             except Exception as e:
                 dirread = self.ekind(e)
-            return {"text": files[0]["text"], "read": files[0]["read"], "others": files[1:], "nfiles": len(os.listdir(d)), "dir": dirread}
+            out = {"text": files[0]["text"], "read": files[0]["read"], "others": files[1:], "nfiles": len(os.listdir(d)), "dir": dirread}
+            if names_differ:
+                out["names_differ"] = listing
+            return out
         finally:
             shutil.rmtree(d, True)
 
@@ -1497,6 +1752,7 @@ class P(Prop):
         return ",".join([str(v) for v in c + list(r[3:10])] + [af_tok(v) for v in afs])
 
     def requests(self, case):
+        case = self.X(case)
         k = case["kind"]
         if k == "session":
             return [l for op in self.norm(case)["ops"] for l in self.requests(op)]
@@ -1577,6 +1833,7 @@ class P(Prop):
         return unhx(w[2:]), r
 
     def decode(self, case, replies):
+        case = self.X(case)
         k = case["kind"]
         if any(r == "bad-request" for r in replies):
             raise ValueError("bad-request")
@@ -1664,6 +1921,7 @@ class P(Prop):
         return out
 
     def compare(self, case, impl_out, model_out):
+        case = self.X(case)
         k = case["kind"]
         if k == "session" and "err" not in impl_out:
             for i, (op, io, mo) in enumerate(zip(self.norm(case)["ops"], impl_out["ops"], model_out["ops"])):
@@ -1696,6 +1954,8 @@ class P(Prop):
             return None if impl_out == model_out else "impl=%s model=%s" % (str(impl_out)[:300], str(model_out)[:300])
         if "werr" in impl_out or "werr" in model_out:
             return None if impl_out.get("werr") == model_out.get("werr") else "writer: impl=%s model=%s" % (str(impl_out)[:200], str(model_out)[:200])
+        if impl_out.get("names_differ"):
+            return "the files of the collection are called %s, not track_output_<i>.csv" % impl_out["names_differ"][:5]
         if impl_out["text"] != model_out["text"]:
             a, b = impl_out["text"], model_out["text"]
             i = next((j for j in range(min(len(a), len(b))) if a[j] != b[j]), min(len(a), len(b)))
@@ -1729,6 +1989,7 @@ class P(Prop):
     # ------------------------------------------------------------------ oracle
     def csv_domain(self, case):
         """None when the case is inside the property's domain, else why not"""
+        case = self.X(case)
         ids = case["ids"]
         used = [v for v in (ids["E"], ids["N"], ids["U"], ids["T"]) if v != -1]
         if sorted(used) != list(range(len(used))):
@@ -1787,8 +2048,13 @@ class P(Prop):
         return None
 
     def spec(self, case, out):
+        case = self.X(case)
         k = case["kind"]
         if "err" in out:
+            # an exception that did not come out of a write / read call of the library (building the case, the harness's own
+            # file handling) says nothing about the property: the correspondence check reports it, the oracle does not judge it
+            if not out.get("in_lib"):
+                return None
             return "raised %s (%s)" % (out["err"], out.get("detail"))
         if k == "session":
             # every round trip of the session must hold with the formats the session started with, and no library call may
@@ -1798,6 +2064,10 @@ class P(Prop):
             for i, (op, o) in enumerate(zip(case["ops"], out["ops"])):
                 tag = "session %r, operation %d (%s)" % (case["fmt"], i, op["kind"])
                 if "err" in o:
+                    # timeWithZone / writeToKml are in the session for the state they may leave behind: that they raise is not
+                    # a failure of a round trip; nor is an exception raised while the operation's input was being built
+                    if op["kind"] in ("tz", "kml", "setfmt") or not o.get("in_lib"):
+                        continue
                     return "%s raised %s (%s)%s" % (tag, o["err"], o.get("detail"), leak or "")
                 m = self.spec(op, o)
                 if m:
@@ -1877,7 +2147,16 @@ class P(Prop):
             if case.get("more"):
                 if out.get("nfiles") != 1 + len(case["more"]) or len(out.get("others", [])) != len(case["more"]):
                     return "writeToCsv(collection): %d tracks, %s files" % (1 + len(case["more"]), out.get("nfiles"))
+                if out.get("names_differ"):
+                    left = [case["rows"]] + case["more"]
+                    for fname, got in zip(out["names_differ"], [out["read"]] + [fo["read"] for fo in out["others"]]):
+                        hit = next((i for i, rows in enumerate(left) if self.check_rows(rows, got, case["q"], case["srid"], "csv", ids["U"] != -1, ids["T"] != -1, "") is None), None)
+                        if hit is None:
+                            return "writeToCsv(collection): the file %s, read back as %s, is none of the tracks written" % (fname, str(got)[:300])
+                        left.pop(hit)
                 for j, (rows, fo) in enumerate(zip(case["more"], out["others"])):
+                    if out.get("names_differ"):
+                        break
                     m = self.check_rows(rows, fo["read"], case["q"], case["srid"], "csv", ids["U"] != -1, ids["T"] != -1,
                                         "CSV collection file track_output_%d.csv sep %r h=%d ids %s" % (j + 1, case["sep"], case["h"], ids))
                     if m:
@@ -1895,7 +2174,7 @@ class P(Prop):
                     if hit is None:
                         return "readFromCsv(directory): the track read back as %s is none of the tracks written" % str(got)[:300]
                     left.pop(hit)
-            for j, rd in enumerate([out["read"]] + out.get("rereads", [])):
+            for j, rd in enumerate([] if out.get("names_differ") else [out["read"]] + out.get("rereads", [])):
                 m = self.check_rows(case["rows"], rd, case["q"], case["srid"], "csv", ids["U"] != -1, ids["T"] != -1,
                                     "CSV %s sep %r h=%d ids %s time format %r%s" % (case["srid"], case["sep"], case["h"], ids, case["pfmt"],
                                                                                   " (read number %d of the file)" % (j + 1) if j else ""))
@@ -1971,6 +2250,7 @@ class P(Prop):
 
     # ------------------------------------------------------------------ findings
     def classify(self, case, impl_out, msg):
+        case = self.X(case)
         k = case["kind"]
         if k == "csv":
             if case["ids"]["T"] != -1 and case["sep"] in case["pfmt"]:
@@ -1984,6 +2264,27 @@ class P(Prop):
     # ------------------------------------------------------------------ shrinking / search
     def shrink(self, case):
         k = case["kind"]
+        g = case.get("long")
+        if g:
+            # a long case shrinks by its sizes (the smallest candidate first; the same seed: a prefix of the same track), then
+            # loses its optional parts; once it is short it is written out and shrinks like any other case
+            for key in ("more", "tracks", "edges", "verts", "n", "each"):
+                v = g.get(key)
+                if v and v > 1:
+                    for nv in sorted({1, 2, v // 2, v * 3 // 4, v * 7 // 8, v - 64, v - 8, v - 1}):
+                        if 1 <= nv < v:
+                            yield dict(case, long=dict(g, **{key: nv}))
+            if g.get("more") == 1 and k == "csv":
+                yield dict(case, long={kk: v for kk, v in g.items() if kk not in ("more", "each")})
+            if case.get("af_names"):
+                c = {kk: v for kk, v in case.items() if kk not in ("af_names", "read_all")}
+                yield c
+            for key in ("stale", "front"):
+                if key in case and not (key == "front" and (case["front"] == "defaults" or g.get("more"))):
+                    c = dict(case); c.pop(key); yield c
+            if self.case_size(self.X(case)) <= 8:
+                yield self.X(case)
+            return
         if k == "session":
             ops = case["ops"]
             if len(ops) > 1:
